@@ -295,6 +295,12 @@ def check_files(case, ev):
     from netconan.anonymize_files import FileAnonymizer, anonymize_files
 
     cfg, files = case["cfg"], case["files"]
+    if any("{MASKIMG:" in t for _, t in files):
+        # "{MASKIMG:n}" stands for the address whose image is the mask-shaped value n
+        import re as _re
+
+        u4 = G.mk4(cfg)
+        files = [[nm, _re.sub(r"\{MASKIMG:(\d+)\}", lambda m: G.v4_canon(u4.deanonymize(int(m.group(1)))), t)] for nm, t in files]
     kw = dict(
         anon_pwd=False,
         anon_ip=True,
@@ -316,7 +322,10 @@ def check_files(case, ev):
         for name, text in files:
             with open(os.path.join(d, "in", name), "w", encoding="utf-8", newline="") as fh:
                 fh.write(text)
-        _, exc = guarded(anonymize_files, os.path.join(d, "in"), os.path.join(d, "together"), **kwargs())
+        kw_t = kwargs()
+        if case.get("dump"):
+            kw_t["dumpfile"] = os.path.join(d, "map.txt")  # asking for the map must not change any output
+        _, exc = guarded(anonymize_files, os.path.join(d, "in"), os.path.join(d, "together"), **kw_t)
         if exc is not None:
             return core.exc_finding(exc, case, "anonymize_files/")
         outs = {"together": {}, "separately": {}, "reverse-shared": {}}
@@ -392,8 +401,11 @@ def _files_case(draw):
     for i in range(draw(st.integers(2, 4))):
         lines = []
         for _ in range(draw(st.integers(1, 5))):
-            kind = draw(st.integers(0, 4))
-            if kind == 0:
+            kind = draw(st.integers(0, 5))
+            if kind == 5:
+                m = draw(st.sampled_from([0xFFFFFF00, 0xFFFF0000, 0x000000FF, 0xFFFFFFFC, 0xFF000000, 0x0000FFFF]))
+                lines.append(draw(st.sampled_from([" ip address {MASKIMG:%d} %s" % (m, G.v4_canon(m)), "permit ip %s {MASKIMG:%d}" % (G.v4_canon(m), m), "route {MASKIMG:%d}" % m])))
+            elif kind == 0:
                 n = draw(st.sampled_from(pool4))
                 lines.append(" ip address %s 255.255.255.0" % draw(G.v4_spelling(n)))
             elif kind == 1:
@@ -406,7 +418,7 @@ def _files_case(draw):
             else:
                 lines.append(draw(G.token_line(cfg=cfg))["line"])
         files.append(["f%d.cfg" % i, "\n".join(lines) + "\n"])
-    return {"cfg": cfg, "words": words, "asns": asns, "files": files}
+    return {"cfg": cfg, "words": words, "asns": asns, "files": files, "dump": draw(st.booleans())}
 
 
 def t_history(shard, nshards, seed, ev, known, n=100, steps=40):
